@@ -374,3 +374,55 @@ pub fn coalescing_of(name: &str) -> Option<scylla::client::WriteCoalescingDelay>
 }
 
 pub const MS: Duration = Duration::from_millis(1);
+
+/// Result of the determinism audit of one execution (DESIGN.md 1.2).
+pub enum Audit {
+    /// replayed with the same verdict (and, for a passing execution, the identical observation trace)
+    Stable,
+    /// the same choice sequence violates the oracle in some replays and not in others: the driver's behaviour depends on
+    /// randomness the harness does not own (select! start branch, hash order). Every violating run is a real execution of
+    /// the real code, so it is reported - with this note, because `vf replay` may need several attempts.
+    FlakyViolation { what: String, violating_runs: u32, runs: u32 },
+    /// replays disagree without any violation, or a violation never shows again: harness trouble, exit 2
+    Diverged(String),
+}
+
+/// `rerun` executes the same choice sequence again: Some((verdict, trace)) or None if it panicked.
+pub fn audit(first: &Result<(), String>, first_trace: &[String], rerun: &dyn Fn() -> Option<(Result<(), String>, Vec<String>)>) -> Audit {
+    match first {
+        Ok(()) => match rerun() {
+            Some((Ok(()), t)) => {
+                if t == first_trace {
+                    Audit::Stable
+                } else {
+                    let at = t.iter().zip(first_trace.iter()).position(|(a, b)| a != b).unwrap_or(t.len().min(first_trace.len()));
+                    Audit::Diverged(format!("two passing runs of one choice sequence differ at trace line {at}: {:?} vs {:?}", first_trace.get(at), t.get(at)))
+                }
+            }
+            Some((Err(e), _)) => Audit::FlakyViolation { what: e, violating_runs: 1, runs: 2 },
+            None => Audit::FlakyViolation { what: "panic|a replay of a passing choice sequence panicked".into(), violating_runs: 1, runs: 2 },
+        },
+        Err(e) => {
+            let key = split_key(e).0;
+            let mut violating = 1;
+            let mut runs = 1;
+            for i in 0..8 {
+                runs += 1;
+                let again = rerun();
+                let same = match &again {
+                    Some((Err(e2), _)) => split_key(e2).0 == key,
+                    None => key == "panic",
+                    _ => false,
+                };
+                if same {
+                    violating += 1;
+                    if i == 0 {
+                        return Audit::Stable;
+                    }
+                    return Audit::FlakyViolation { what: e.clone(), violating_runs: violating, runs };
+                }
+            }
+            Audit::Diverged(format!("a violation ({key}) did not show again in 8 replays of the same choice sequence"))
+        }
+    }
+}
